@@ -401,7 +401,7 @@ pub fn run(ctx: &mut Ctx) {
     ctx.section(
         "rhat-reference",
         "library split R-hat vs f64 reference of the stated formula, floor sqrt((n-1)/n)",
-        t.pick(3000, 300_000),
+        t.pick(30_000, 1_000_000),
         16,
         move || bx(arr_case(16, long, true)),
         check_arr,
@@ -409,7 +409,7 @@ pub fn run(ctx: &mut Ctx) {
     ctx.section(
         "rhat-metamorphic",
         "affine map, chain permutation, other parameters replaced (bitwise), one chain moved 1/10/1000 sd away (monotone, unbounded)",
-        t.pick(600, 60_000),
+        t.pick(6_000, 200_000),
         16,
         meta_strategy,
         check_meta,
@@ -417,7 +417,7 @@ pub fn run(ctx: &mut Ctx) {
     ctx.section(
         "summary",
         "basic_stats on arrays of length 1..256 with NaN/inf of any density: never panics; finite inputs: exact min/max, mean, std(ddof 1), median in {lower, upper middle}",
-        t.pick(20_000, 2_000_000),
+        t.pick(200_000, 6_000_000),
         16,
         summary_strategy,
         check_summary,
@@ -425,7 +425,7 @@ pub fn run(ctx: &mut Ctx) {
     ctx.section(
         "runstats",
         "RunStats::from on arrays incl. constant parameters: no panic; finite diagnostics => summary equals their statistics",
-        t.pick(800, 80_000),
+        t.pick(8_000, 250_000),
         16,
         move || bx(arr_case(8, 800, true)),
         check_runstats,
